@@ -419,7 +419,7 @@ func genDs(c *hx.Ctx) {
 		case 0, 1, 2:
 			c.Emit("ds", "om", string([]byte{"nz"[q.Intn(2)], "nz"[q.Intn(2)], "nz"[q.Intn(2)]}), genOmOps(q, n))
 		case 3, 4:
-			c.Emit("ds", "bm", []string{"n", "n", "n", "z"}[q.Intn(4)], genBmOps(q, n))
+			c.Emit("ds", "bm", []string{"n", "n", "n", "n", "n", "n", "n", "z"}[q.Intn(8)], genBmOps(q, n))
 		case 5:
 			c.Emit("ds", "ps", "-", genPsOps(q, n))
 		default:
@@ -595,6 +595,7 @@ func genIstOps(r *hx.Rng, n int) string {
 	dumpEvery := n <= 60
 	ops := make([]string, 0, n+4)
 	val := 0
+	var put [][2]int // intervals inserted so far (Get/Contains aim at them half of the time)
 	for i := 0; i < n; i++ {
 		var o string
 		switch y := r.Intn(100); {
@@ -608,6 +609,9 @@ func genIstOps(r *hx.Rng, n int) string {
 			}
 			if a > b && !r.Chance(4) { // a > b: NewInterval panics, nothing is inserted
 				a, b = b, a
+			}
+			if a <= b {
+				put = append(put, [2]int{a, b})
 			}
 			val++
 			v := val
@@ -636,11 +640,19 @@ func genIstOps(r *hx.Rng, n int) string {
 			if a > b && r.Chance(90) {
 				a, b = b, a
 			}
+			if len(put) > 0 && r.Bool() {
+				iv := put[r.Intn(len(put))]
+				a, b = iv[0], iv[1]
+			}
 			o = dsJoin("get", a, b)
 		case y < 88:
 			a, b := p(), p()
 			if a > b {
 				a, b = b, a
+			}
+			if len(put) > 0 && r.Bool() {
+				iv := put[r.Intn(len(put))]
+				a, b = iv[0], iv[1]
 			}
 			o = dsJoin("has", a, b)
 		case y < 93:
